@@ -57,16 +57,42 @@ theorem get_bit_eq (x k : Nat) : ((x &&& 2 ^ k) != 0) = x.testBit k := by
     simp [hx, this]
   · simp [hx]
 
+/-- the shifted spelling of a bit test: `(x >> k) & 1 == 1` -/
+theorem get_bit_shift_eq (x k : Nat) : ((x >>> k &&& 1) == 1) = x.testBit k := by
+  have h1 : x >>> k &&& 1 = (x >>> k) % 2 := Nat.and_two_pow_sub_one_eq_mod _ 1
+  rw [h1]
+  unfold Nat.testBit
+  rw [Nat.and_comm, h1]
+  have := Nat.mod_two_eq_zero_or_one (x >>> k)
+  rcases this with h | h <;> simp [h]
+
+/-- `(x >> k) & 1 != 0` -/
+theorem get_bit_shift_ne (x k : Nat) : ((x >>> k &&& 1) != 0) = x.testBit k := by
+  unfold Nat.testBit
+  rw [Nat.and_comm]
+
+/-- `x & (1 << k) == (1 << k)` -/
+theorem get_bit_mask_eq (x k : Nat) : ((x &&& 2 ^ k) == 2 ^ k) = x.testBit k := by
+  rw [and_two_pow_eq]
+  by_cases hx : x.testBit k
+  · simp [hx]
+  · have : 2 ^ k ≠ 0 := Nat.ne_of_gt (Nat.two_pow_pos k)
+    simp [hx, this.symm]
+
+/-- any of the usual spellings of "bit `k` of `x`" (the getters may be rewritten harmlessly) -/
+macro "bit_test" k:num : tactic =>
+  `(tactic| first | exact get_bit_eq _ $k | exact get_bit_shift_eq _ $k | exact get_bit_shift_ne _ $k | exact get_bit_mask_eq _ $k)
+
 theorem flags_qr_eq (bits : Nat) : flags_qr bits = bits.testBit 15 := by
-  unfold flags_qr; exact get_bit_eq bits 15
+  unfold flags_qr; bit_test 15
 theorem flags_aa_eq (bits : Nat) : flags_aa bits = bits.testBit 10 := by
-  unfold flags_aa; exact get_bit_eq bits 10
+  unfold flags_aa; bit_test 10
 theorem flags_tc_eq (bits : Nat) : flags_tc bits = bits.testBit 9 := by
-  unfold flags_tc; exact get_bit_eq bits 9
+  unfold flags_tc; bit_test 9
 theorem flags_rd_eq (bits : Nat) : flags_rd bits = bits.testBit 8 := by
-  unfold flags_rd; exact get_bit_eq bits 8
+  unfold flags_rd; bit_test 8
 theorem flags_ra_eq (bits : Nat) : flags_ra bits = bits.testBit 7 := by
-  unfold flags_ra; exact get_bit_eq bits 7
+  unfold flags_ra; bit_test 7
 
 /-- RCODE = the low four bits -/
 theorem flags_rcode_eq (bits : Nat) : flags_rcode bits = bits % 16 := by
